@@ -4,6 +4,7 @@ import (
 	"go/types"
 	"fmt"
 	"go/token"
+	"sort"
 	"strings"
 
 	"ndndcheck/core"
@@ -13,7 +14,7 @@ import (
 
 // C06 — The FIB always equals the flattening of the currently registered routes.
 func C06(c *core.Ctx) {
-	c.Explain = "Decides structural necessary conditions of C06; the flattening itself over all histories is behavioural and not decided. (R6.1) in RibEntry.updateNexthopsEnc every call that mutates the FIB (ClearNextHopsEnc / InsertNextHopEnc / SetNextHopsEnc) is reachable only on the edge asserting that the entry is a named one (Name != nil) — name-less filler nodes would address the root FIB entry; the recursion into children is unconditional so inheritance still propagates through fillers; (R6.2) inherited routes are collected only when the entry itself holds no capture route, only child-inherit routes are taken from ancestors, and the ancestor walk has an exit on the edge asserting HasCaptureRoute() of the loop cursor placed after that ancestor's routes were taken; (R6.3) the per-face cost is overwritten only under 'absent ∨ cheaper'; (R6.4) every function that stores to RibEntry.routes or Route.Cost/Flags reaches updateNexthopsEnc of that entry on all exits, face removal reaches Rib.CleanUpFace, which recurses into every child; (R6.5) the face-cleanup scan over an entry's routes has no exit other than exhaustion (routes are keyed by (face, origin), so several may match)."
+	c.Explain = "Decides structural necessary conditions of C06; the flattening itself over all histories is behavioural and not decided. (R6.1) in RibEntry.updateNexthopsEnc every call that mutates the FIB (ClearNextHopsEnc / InsertNextHopEnc / SetNextHopsEnc) is reachable only on the edge asserting that the entry is a named one (Name != nil) — name-less filler nodes would address the root FIB entry; the recursion into children is unconditional so inheritance still propagates through fillers; (R6.2) inherited routes are collected only when the entry itself holds no capture route, only child-inherit routes are taken from ancestors, and the ancestor walk has an exit on the edge asserting HasCaptureRoute() of the loop cursor placed after that ancestor's routes were taken; (R6.3) the per-face cost is overwritten only under 'absent ∨ cheaper'; (R6.4) every function that stores to RibEntry.routes or Route.Cost/Flags reaches updateNexthopsEnc of that entry on all exits, face removal reaches Rib.CleanUpFace, which recurses into every child; (R6.5) the face-cleanup scan over an entry's routes has no exit other than exhaustion (routes are keyed by (face, origin), so several may match); (R6.13) HasCaptureRoute computes its answer from the entry's routes on every call, or — when it answers from a stored field of the entry — every store to RibEntry.routes / Route.Flags is followed on all exits by a rewrite of that field."
 	c.RuleText = "instances: FIB-mutator calls in fw/table/rib.go, the ancestor walk, the min-cost map update, every function storing to RibEntry.routes / Route.Cost / Route.Flags (discovered by scanning stores), face-table removal. Non-trivial = has a branch edge or path to decide."
 	p := c.P
 	c06NamesArePrivate(c)
@@ -323,6 +324,7 @@ func C06(c *core.Ctx) {
 		})
 	}
 	c.Floor("R6.4", "route mutation stores", nMut, 3)
+	c06CaptureAnswerIsCurrent(c)
 	// ---- R6.4b the refresh comes before the pruning. An entry that lost its last route is
 	// refreshed (its FIB entry is cleared or refilled with inherited next hops) and then
 	// detached; once detached it is never reached by a refresh again, so pruning first leaves
@@ -714,4 +716,125 @@ func c06NamesArePrivate(c *core.Ctx) {
 		})
 	}
 	c.Floor("R6.12", "stores of a name or component into a RIB entry", n, 2)
+}
+
+// c06CaptureAnswerIsCurrent — R6.13. HasCaptureRoute decides where inheritance stops
+// (R6.2). Today it walks the entry's routes; if it answers from a stored field of the entry
+// instead (a remembered answer), that field has to be rewritten after every store that
+// changes the entry's routes or a route's flags — a mutator that skips it (the face-cleanup
+// walk, say) leaves a prefix behaving as 'capture' after its capture route is gone.
+func c06CaptureAnswerIsCurrent(c *core.Ctx) {
+	p := c.P
+	hc := p.Func("fw/table", "RibEntry", "HasCaptureRoute")
+	if hc == nil {
+		c.Und("R6.13", "anchor:HasCaptureRoute", "-", "fw/table.RibEntry.HasCaptureRoute not found")
+		return
+	}
+	inTable := func(g *ssa.Function) bool {
+		return g != nil && g.Pkg != nil && g.Pkg.Pkg.Path() == core.ModPath+"/fw/table" && len(g.Blocks) > 0
+	}
+	// fields of RibEntry the answer is read from (through helpers in the package, depth 3)
+	read := map[string]bool{}
+	var walkR func(g *ssa.Function, d int, seen map[*ssa.Function]bool)
+	walkR = func(g *ssa.Function, d int, seen map[*ssa.Function]bool) {
+		if seen[g] || d > 3 {
+			return
+		}
+		seen[g] = true
+		core.Instrs(g, func(in ssa.Instruction) {
+			if fa, ok := in.(*ssa.FieldAddr); ok {
+				if t, f := core.FieldAddrName(fa); t == "RibEntry" {
+					read[f] = true
+				}
+			}
+			if ci, ok := in.(ssa.CallInstruction); ok {
+				if h := ci.Common().StaticCallee(); inTable(h) {
+					walkR(h, d+1, seen)
+				}
+			}
+		})
+	}
+	walkR(hc, 0, map[*ssa.Function]bool{})
+	var cached []string
+	for f := range read {
+		if f != "routes" {
+			cached = append(cached, f)
+		}
+	}
+	sort.Strings(cached)
+	if len(cached) == 0 {
+		c.Decide(read["routes"], "R6.13", "capture-answer-from-routes", p.Pos(hc.Pos()), "HasCaptureRoute computes its answer from the entry's routes on every call (nothing remembered)", "HasCaptureRoute reads neither the entry's routes nor a field kept current with them: inheritance cannot stop at a capture route")
+		return
+	}
+	// writers of a remembered field, transitively (depth 3)
+	writes := func(field string) func(g *ssa.Function) bool {
+		memo := map[*ssa.Function]bool{}
+		var w func(g *ssa.Function, d int) bool
+		w = func(g *ssa.Function, d int) bool {
+			if v, ok := memo[g]; ok {
+				return v
+			}
+			memo[g] = false
+			if !inTable(g) || d > 3 {
+				return false
+			}
+			found := false
+			core.Instrs(g, func(in ssa.Instruction) {
+				if found {
+					return
+				}
+				if _, _, ok := storeToField(in, "RibEntry", field); ok {
+					found = true
+					return
+				}
+				if ci, ok := in.(ssa.CallInstruction); ok {
+					if h := ci.Common().StaticCallee(); h != nil && h != g && w(h, d+1) {
+						found = true
+					}
+				}
+			})
+			memo[g] = found
+			return found
+		}
+		return func(g *ssa.Function) bool { return w(g, 0) }
+	}
+	n := 0
+	for _, field := range cached {
+		wr := writes(field)
+		for _, fn := range p.FuncsIn(core.ModPath + "/fw/table") {
+			core.Instrs(fn, func(in ssa.Instruction) {
+				fa, _, okR := storeToField(in, "RibEntry", "routes")
+				fa3, _, okF := storeToField(in, "Route", "Flags")
+				if !okR && !okF {
+					return
+				}
+				if okR && isFreshObject(fa.X) {
+					return
+				}
+				if okF {
+					if _, fresh := core.Strip(fa3.X).(*ssa.Alloc); fresh {
+						return
+					}
+				}
+				what := "routes"
+				if okF {
+					what = "Flags"
+				}
+				n++
+				fr := core.MustFollowDeep(core.RootOf(fn), core.After(in), func(x ssa.Instruction) bool {
+					if _, _, ok := storeToField(x, "RibEntry", field); ok {
+						return true
+					}
+					if ci, ok := x.(ssa.CallInstruction); ok {
+						if h := ci.Common().StaticCallee(); h != nil && wr(h) {
+							return true
+						}
+					}
+					return false
+				}, nil)
+				c.Decide(fr.OK, "R6.13", fmt.Sprintf("capture-answer-current:%s:%s:%s", field, core.FuncName(fn), what), c.Pos(in), "the store to "+what+" is followed on all exits by a rewrite of RibEntry."+field+", which HasCaptureRoute answers from", core.FuncName(fn)+" changes an entry's "+what+" and can return without rewriting RibEntry."+field+", the remembered answer HasCaptureRoute gives: a prefix keeps (or never gets) its capture behaviour after the route that decided it changed, so longer prefixes inherit wrongly")
+			})
+		}
+	}
+	c.Floor("R6.13", "route stores checked against the remembered capture answer", n, 3)
 }
